@@ -33,10 +33,16 @@ where
         let mut purified_cstore = ConstraintStore::new();
         for constraint in self.0.into_iter() {
             if let Some(tree_constraint) = constraint.downcast_ref::<DisequalityConstraint<U, E>>() {
+                // A disequality that refers to a variable outside the answer can always be
+                // satisfied by that variable: it does not constrain the answer.
                 if tree_constraint
                     .smap_ref()
                     .iter()
                     .any(|(u, _)| r.is_anyvar(u))
+                    && !tree_constraint
+                        .smap_ref()
+                        .iter()
+                        .any(|(u, v)| r.is_unreified(u) || r.is_unreified(v))
                 {
                     purified_cstore.insert(constraint);
                 }
